@@ -40,6 +40,8 @@ class C08(Harness):
             for base in ("plain", "pipeline", "multiplexer", "randomized", "listgrid"):
                 for refit in (True, False):
                     out.append({"name": "%s-%s-%s" % (base, "gib" if gib else "loss", "refit" if refit else "norefit"), "kind": base, "gib": gib, "refit": refit, "cost": 2})
+            # a candidate that cannot forecast (NaN predictions, NaN mean score under an honest metric) is never the best
+            out.append({"name": "plain-%s-refit-nan-candidate" % ("gib" if gib else "loss"), "kind": "plain", "gib": gib, "refit": True, "nan_candidate": True, "cost": 2})
             for base in ("plain", "randomized"):  # the evaluation strategy given to the tuner reaches evaluate()
                 out.append({"name": "%s-%s-refit-update-strategy" % (base, "gib" if gib else "loss"), "kind": base, "gib": gib, "refit": True, "strategy": "update", "cost": 2})
         return out
@@ -67,11 +69,13 @@ class C08(Harness):
         NFE = W.load("sktime.exceptions").NotFittedError
         log = []
         Member = make_member(W, log)
+        if cell.get("nan_candidate"):
+            Member.NAN_P = 1  # the first candidate of the grid
         T, _ = make_transformer(W, log)
         n, s0, nc = inp["n"], inp["s0"], inp["nc"]
         y = pd.Series(inp["y"], index=pd.RangeIndex(s0, s0 + n))
         cv = sp.ExpandingWindowSplitter(fh=1, initial_window=inp["iw"], step_length=1)
-        sc = make_score(W, gib=cell["gib"])
+        sc = make_score(W, gib=cell["gib"], honest_nan=bool(cell.get("nan_candidate")))
         if inp.get("wrapped_scorer"):
             # the library's own scorer wrapper around the same uninterpreted metric
             mk = W.load("sktime.performance_metrics.forecasting._classes").make_forecasting_scorer
@@ -196,13 +200,23 @@ class C08(Harness):
                     for lab, q, v in zip(e["idx"], tr, e["vals"]):
                         P.eq("same-splits-for-every-candidate", lab, s0 + q)
                         P.eq("same-splits-for-every-candidate", v, tf(y[q]))
+            if cell.get("nan_candidate") and p == 1:
+                means.append(float("nan"))
+                P.check("row-equals-independent-evaluate", isinstance(out["means"][j], float) and out["means"][j] != out["means"][j], {"candidate": j, "what": "NaN mean for the candidate that cannot forecast"})
+                continue
             means.append(tot / nfold)
             P.eq("row-equals-independent-evaluate", out["means"][j], means[j])
         bi = out["best_index"]
         P.check("best-params-score-belong-to-best-index", isinstance(bi, int) and 0 <= bi < len(cands))
         if not (isinstance(bi, int) and 0 <= bi < len(cands)):
             return
+        isnan_ = lambda v: isinstance(v, float) and v != v  # noqa: E731
+        P.check("best-is-optimal-in-declared-direction", not isnan_(means[bi]), {"best_index": bi, "what": "a candidate without a score was selected"})
+        if isnan_(means[bi]):
+            return
         for j in range(len(cands)):
+            if isnan_(means[j]):
+                continue
             P.check("best-is-optimal-in-declared-direction", (means[bi] >= means[j]) if cell["gib"] else (means[bi] <= means[j]), {"best_index": bi, "other": j, "greater_is_better": cell["gib"]})
         P.eq("best-params-score-belong-to-best-index", out["best_score"], means[bi])
         P.check("best-params-score-belong-to-best-index", out["best_params"] == cands[bi])
